@@ -14,8 +14,8 @@ from models import int_to_chars
 
 PROPERTY = 'C12'
 BUDGET = {'quick': 420, 'thorough': 3000}
-BOUNDS = {'quick': dict(brace=5, range_digits=2, home=2, glob_names=2, name_len=2),
-          'thorough': dict(brace=6, range_digits=3, home=3, glob_names=3, name_len=2)}
+BOUNDS = {'quick': dict(brace=5, range_digits=1, home=2, glob_names=2, name_len=2),
+          'thorough': dict(brace=6, range_digits=2, home=3, glob_names=3, name_len=2)}
 ASSUMPTIONS = [
     'brace words: n fully symbolic characters (arbitrary scalars except NUL/newline and except blank, quotes, backslash and backquote, which take the word out of the brace-expansion domain by the property\'s "never inside quotes"); words that are not well formed (unbalanced braces, a group without a comma) are only required not to crash or hang',
     'ranges: {m..n} and {m..n..s} with up to range_digits symbolic digits per number and symbolic signs, plus the i32 extremes as directed cases; text before/after the braces symbolic (1 character each)',
@@ -37,7 +37,9 @@ def instances(tier, seed):
     for nd in range(1, b['range_digits'] + 1):
         for step in (False, True):
             for ctx in ((0, 0), (1, 0), (0, 1)):
-                out.append(dict(name='range/d%d/%s/ctx%d%d' % (nd, 'step' if step else 'nostep', ctx[0], ctx[1]), kind='range', nd=nd, step=step, ctx=ctx))
+                for signs in ((0, 0), (0, 1), (1, 0), (1, 1)):
+                    out.append(dict(name='range/d%d/%s/ctx%d%d/s%d%d' % (nd, 'step' if step else 'nostep', ctx[0], ctx[1], signs[0], signs[1]),
+                                    kind='range', nd=nd, step=step, ctx=ctx, signs=signs))
     for case in ('2147483647..2147483647', '2147483646..2147483647', '-2147483648..-2147483647', '-2147483647..-2147483648', '0..3..2147483647',
                  '1..2147483647..2147483647', '99999999999..1', '-5..5..3', '5..-5..3', '3..3'):
         out.append(dict(name='range/directed/' + case, kind='range-directed', text=case))
@@ -49,6 +51,7 @@ def instances(tier, seed):
         for pat in ('*', 'a*', '.*', 'd/*', '*.txt'):
             for tag in ('', "'"):
                 out.append(dict(name='glob/%s/k%d/%s' % (pat.replace('/', '_'), k, 'sq' if tag else 'plain'), kind='glob', pat=pat, k=k, tag=tag))
+    out.sort(key=lambda i: 0 if i['kind'] == 'range' and i.get('step') else 1)
     return out
 
 # ---- reference brace expansion (the statement: left-to-right alternatives, cartesian product, nesting, empty alternatives)
@@ -126,12 +129,11 @@ def body(inst, b):
         if kind in ('range', 'range-directed'):
             if kind == 'range':
                 nd = inst['nd']
-                def number(nm):
-                    neg = I.sym_bool(nm + '_neg')
+                def number(nm, neg):
                     digs = [I.sym_char('%s_%d' % (nm, i)) for i in range(nd)]
                     for d in digs: I.ctx.assume(z3.And(z3.UGE(d, 48), z3.ULE(d, 57)))
-                    return ([45] if I.branch(neg) else []) + digs
-                m_ = number('m'); n_ = number('n')
+                    return ([45] if neg else []) + digs
+                m_ = number('m', inst['signs'][0]); n_ = number('n', inst['signs'][1])
                 text = [123] + m_ + [46, 46] + n_
                 if inst['step']:
                     sd = [I.sym_char('s_%d' % i) for i in range(nd)]
